@@ -42,6 +42,9 @@ pub const MODE_PATHLOG: u32 = 16;
 /// arbitrary non-negative ints (what the kernel does), instead of leaving it untouched
 pub const MODE_FILL_OUT: u32 = 32;
 
+/// calls not covered by a selected contract return 0, 1 or an error (counts such as ppoll's)
+pub const MODE_SMALL_OR_ERR: u32 = 64;
+
 pub static mut MODE: u32 = MODE_ANY;
 /// executions that would issue more than this many calls are not explored (retry loops)
 pub static mut CALL_BUDGET: usize = usize::MAX;
@@ -309,9 +312,24 @@ pub fn bad_unmaps() -> usize {
     unsafe { MAP_BAD_UNMAP }
 }
 
+/// backing store handed out by the mmap contract, so that code which reads the mapping it was just
+/// given (setup_io_uring reads ring parameters through it) dereferences real memory
+pub static mut ARENA: [[u64; 64]; MAP_CAP] = [[0; 64]; MAP_CAP];
+
 fn map_fresh(len: usize) -> usize {
     unsafe {
-        let addr = MAP_FIRST + MAP_COUNT * MAP_STRIDE;
+        let addr = if MAP_COUNT < MAP_CAP {
+            // what the kernel would have stored in an io_uring ring mapping at the offsets the
+            // io_uring_setup contract above announces: ring_mask / ring_entries of a 4-entry ring
+            let w = ARENA[MAP_COUNT].as_mut_ptr() as *mut u32;
+            *w.add(2) = 3;
+            *w.add(3) = 4;
+            *w.add(10) = 3;
+            *w.add(11) = 4;
+            ARENA[MAP_COUNT].as_ptr() as usize
+        } else {
+            MAP_FIRST
+        };
         if MAP_COUNT < MAP_CAP {
             MAPS[MAP_COUNT] = MapSlot { addr, len, mapped: true };
             MAP_COUNT += 1;
@@ -417,6 +435,32 @@ pub unsafe fn dispatch(n: usize, args: [usize; 7], nargs: u8) -> usize {
     if mode & MODE_FDS != 0 && creates_fd(n) {
         let fail = choose(3) != 0;
         ret = if fail { choose_err() } else { fd_fresh() };
+        if !fail && n == nr::IO_URING_SETUP {
+            // kernel contract of io_uring_setup: the params out-parameter (struct io_uring_params,
+            // 120 bytes = 30 u32 words) comes back with non-zero entry counts, a feature word and
+            // the ring offsets
+            let p = args[1] as *mut u32;
+            // (4 entries each: consistent with the ring words the mmap contract below stores)
+            *p = 4;
+            *p.add(1) = 4;
+            *p.add(5) = choose(6) as u32; // features (bit 0: IORING_FEAT_SINGLE_MMAP)
+            // sq_off: head, tail, ring_mask, ring_entries, flags, dropped, array
+            *p.add(10) = 0;
+            *p.add(11) = 4;
+            *p.add(12) = 8;
+            *p.add(13) = 12;
+            *p.add(14) = 16;
+            *p.add(15) = 20;
+            *p.add(16) = 24;
+            // cq_off: head, tail, ring_mask, ring_entries, overflow, cqes, flags
+            *p.add(20) = 32;
+            *p.add(21) = 36;
+            *p.add(22) = 40;
+            *p.add(23) = 44;
+            *p.add(24) = 48;
+            *p.add(25) = 64;
+            *p.add(26) = 0;
+        }
     } else if mode & MODE_FDS != 0 && (n == nr::DUP2 || n == nr::DUP3) {
         // dup2/dup3(old, new): on success `new` is (re)opened — it names a descriptor the caller
         // chose, so it is recorded as open-by-callee only if it was not open before
@@ -488,6 +532,11 @@ pub unsafe fn dispatch(n: usize, args: [usize; 7], nargs: u8) -> usize {
         let p = if n == nr::MKDIRAT { args[1] } else { args[0] };
         log_path(p, r);
         ret = r;
+    } else if mode & MODE_SMALL_OR_ERR != 0 {
+        let v = choose(2);
+        #[cfg(kani)]
+        kani::assume(v <= 1 || is_err(v));
+        ret = v;
     } else if mode & MODE_ZERO_OR_ERR != 0 {
         ret = choose_zero_or_err();
     } else {
